@@ -473,6 +473,8 @@ func (f ForkId) Match(ref map[*syntax.CallStm]syntax.CollectionIndex,
 						// Should not be possible - checked during static analysis.
 						panic(result[i].GoString() + " from " + j.Mode().String())
 					}
+				} else if lp := f.lockstepPart(j, src); lp != nil {
+					result[i] = lp
 				} else {
 					return result, &elementError{
 						element: "unknown index for " + j.IndexSource().GoString(),
@@ -498,6 +500,9 @@ func (f ForkId) Match(ref map[*syntax.CallStm]syntax.CollectionIndex,
 								// Should not be possible - checked during static analysis.
 								panic(result[i].GoString() + " from " + j.Mode().String())
 							}
+						} else if lp := f.lockstepPart(j, src); lp != nil {
+							found = true
+							result[i] = lp
 						} else {
 							return result, &elementError{
 								element: "unknown index for " + j.IndexSource().GoString(),
@@ -515,6 +520,35 @@ func (f ForkId) Match(ref map[*syntax.CallStm]syntax.CollectionIndex,
 		}
 	}
 	return result, nil
+}
+
+// lockstepPart returns a part for the given call with the index which this
+// fork ID has for another call that iterates over the very same source as the
+// undetermined index j does, or nil if there is none.
+//
+// A call which is mapped over the merged output of another mapped call forks
+// in lockstep with it, and the nodes inside it may fork over either call.
+func (f ForkId) lockstepPart(j syntax.CollectionIndex,
+	src *syntax.CallStm) *ForkSourcePart {
+	source := j.IndexSource()
+	if _, ok := source.(*syntax.MapCallSet); !ok {
+		return nil
+	}
+	for _, part := range f {
+		if part.Split != nil && part.Split.Source == source &&
+			part.Id.IndexSource() == nil {
+			return &ForkSourcePart{
+				Id:    part.Id,
+				Range: part.Range,
+				Split: &syntax.SplitExp{
+					Value:  &syntax.MergeExp{MergeOver: src},
+					Call:   src,
+					Source: src,
+				},
+			}
+		}
+	}
+	return nil
 }
 
 // Matches returns true if the IDs match for every fork element with matching
